@@ -980,9 +980,9 @@ class Highlighter(object):
                     token.endchar = t.endchar
             else:
                 yield token
-                token = None
-                # t was not merged, also has to be yielded
-                yield t
+                # t was not merged: it starts a new run (a copy, because the
+                # analyzer re-uses the token object)
+                token = t.copy()
 
         if token is not None:
             yield token
